@@ -123,6 +123,18 @@ pub fn run(head: &str, args: &[Sexp]) -> Option<Sexp> {
                 Ok(o) => o,
                 Err(e) => return Some(Sexp::tagged("layout", vec![Sexp::int(1), e])),
             };
+            // Eq / Hash / document consistency: ASTs the implementation itself calls equal must have the same
+            // std hash, the same JSON and the same C-API hash
+            if o1.ast == o2.ast && (std_hash(&o1.ast) != std_hash(&o2.ast) || o1.json != o2.json || o1.hash != o2.hash) {
+                return Some(Sexp::tagged(
+                    "equal-asts-inconsistent",
+                    vec![
+                        Sexp::boolean(std_hash(&o1.ast) == std_hash(&o2.ast)),
+                        Sexp::boolean(o1.json == o2.json),
+                        Sexp::boolean(o1.hash == o2.hash),
+                    ],
+                ));
+            }
             let differ = o1.json != o2.json;
             // equal documents <=> equal hashes is only required left to right; report a collision separately
             let tag = if differ { "differ" } else { "same" };
